@@ -1397,6 +1397,9 @@ struct Plan {
 }
 
 fn plans(quick: bool) -> Vec<Plan> {
+    // (the quick tier runs what used to be the thorough plan - about 15 s; thorough goes one event deeper everywhere)
+    let x = if quick { 0 } else { 1 };
+    let quick = false;
     let mut v = vec![];
     let pols = [Policy::Auto(1), Policy::Auto(2), Policy::Auto(3), Policy::Auto(10), Policy::Manual];
     for p in pols {
@@ -1409,22 +1412,22 @@ fn plans(quick: bool) -> Vec<Plan> {
             v.push(Plan { cfg, alphabet: &FULL, alphabet_name: "full", depth: if deep { 5 } else { 4 } });
             v.push(Plan { cfg, alphabet: core, alphabet_name: core_name, depth: if deep { 6 } else { 5 } });
         } else {
-            v.push(Plan { cfg, alphabet: &FULL, alphabet_name: "full", depth: if deep { 6 } else { 5 } });
-            v.push(Plan { cfg, alphabet: core, alphabet_name: core_name, depth: if deep { 8 } else { 7 } });
+            v.push(Plan { cfg, alphabet: &FULL, alphabet_name: "full", depth: if deep { 6 + x } else { 5 + x } });
+            v.push(Plan { cfg, alphabet: core, alphabet_name: core_name, depth: if deep { 8 + x } else { 7 + x } });
         }
         // listener side
         let cfg = Cfg { side: Side::Listener, policy: p, idc: 5 };
         if quick {
             v.push(Plan { cfg, alphabet: core, alphabet_name: core_name, depth: 4 });
         } else {
-            v.push(Plan { cfg, alphabet: &FULL, alphabet_name: "full", depth: 5 });
+            v.push(Plan { cfg, alphabet: &FULL, alphabet_name: "full", depth: 5 + x });
         }
         // the delivery-count wraps around during the history
         let cfg = Cfg { side: Side::Client, policy: p, idc: u32::MAX - 1 };
         if quick {
             v.push(Plan { cfg, alphabet: core, alphabet_name: core_name, depth: 4 });
         } else {
-            v.push(Plan { cfg, alphabet: core, alphabet_name: core_name, depth: 6 });
+            v.push(Plan { cfg, alphabet: core, alphabet_name: core_name, depth: 6 + x });
         }
     }
     v
